@@ -15,7 +15,7 @@ func (node *tagSSINode) Execute(ctx *ExecutionContext, writer TemplateWriter) *E
 		includeCtx.Update(ctx.Public)
 		includeCtx.Update(ctx.Private)
 
-		err := node.template.execute(includeCtx, writer)
+		err := node.template.execute(includeCtx, writer, ctx.depth+1)
 		if err != nil {
 			return err.(*Error)
 		}
@@ -34,7 +34,7 @@ func tagSSIParser(doc *Parser, start *Token, arguments *Parser) (INodeTag, *Erro
 
 		if arguments.Match(TokenIdentifier, "parsed") != nil {
 			// parsed
-			temporaryTpl, err := doc.template.set.FromFile(doc.template.set.resolveFilename(doc.template, fileToken.Val))
+			temporaryTpl, err := doc.template.set.fromFile(doc.template.set.resolveFilename(doc.template, fileToken.Val), doc.template.depth+1)
 			if err != nil {
 				return nil, err.(*Error).updateFromTokenIfNeeded(doc.template, fileToken)
 			}
